@@ -112,6 +112,7 @@ structure Handle where
   cfState : FState := .new               -- client filter f->state
   cs : Option CState := none             -- f->data of the client filter (freed = none)
   memSink : Bool := false                -- opened with archive_write_open_memory
+  fileSink : Bool := false               -- opened with archive_write_open_fd / _filename on a regular file
   openerRet : Int := 0                   -- what the client's open callback returns
   remaining : Nat := 0                   -- ustar->entry_bytes_remaining
   padding : Nat := 0                     -- ustar->entry_padding
@@ -267,7 +268,10 @@ def setBil (h : Handle) (v : Int) : Int × Handle :=
 "Disable padding if it hasn't been set explicitly"). -/
 def clientOpenStep (h : Handle) : Int × Handle :=
   if h.cfState ≠ .new then (fatal, h) else
-  let h1 := if h.memSink ∧ h.openerRet = ok ∧ h.bil = -1 then { h with bil := 1 } else h
+  let h1 := if h.memSink ∧ h.openerRet = ok ∧ h.bil = -1 then { h with bil := 1 }
+    -- file_open of archive_write_open_fd.c / _filename.c: "If client hasn't explicitly set the last
+    -- block handling": a regular file is left unpadded
+    else if h.fileSink ∧ h.openerRet = ok ∧ h.bil < 0 then { h with bil := 1 } else h
   if h.openerRet = ok then (ok, { h1 with cfState := .open, cs := some (clientOpen h1.bpb) })
   else (h.openerRet, { h1 with cfState := .fatal, cs := none })
 
@@ -387,9 +391,57 @@ end
 
 /-! ### the two callbacks the harness uses -/
 
+/-- Answers of the scripted system call under the library's own sinks. -/
+inductive SysAns
+  | accept (k : Nat)   -- write(2)/fwrite accepts min k n bytes
+  | zero               -- returns 0 (errno 0)
+  | error              -- fails with EIO
+  | eintr              -- fails with EINTR
+  deriving DecidableEq, Repr
+
+/-- State of the fd / filename / FILE sink: the script and a digest of the system calls made. -/
+structure FdSink where
+  sc : List SysAns := []
+  n : Nat := 0
+  short : Nat := 0
+  eintr : Nat := 0
+  h : Nat := 14695981039346656037
+  deriving Repr
+
+def fnvStep' (h b : Nat) : Nat := ((h ^^^ (b % 256)) * 1099511628211) % 18446744073709551616
+def mix' (h x : Nat) : Nat := ((h ^^^ (x % 18446744073709551616)) * 1099511628211) % 18446744073709551616
+def offerHash' (o : List Cell) : Nat :=
+  o.foldl (fun h c => fnvStep' h (match c with | some b => b | none => 0)) 14695981039346656037
+
+def FdSink.log (s : FdSink) (o : List Cell) (code : Int) (rest : List SysAns) : FdSink :=
+  { s with sc := rest, n := s.n + 1,
+           short := if 0 < code ∧ code < o.length then s.short + 1 else s.short,
+           eintr := if code = -2 then s.eintr + 1 else s.eintr,
+           h := mix' (mix' (mix' s.h (offerHash' o)) o.length) (code + 1000).toNat }
+
+/-- `file_write` of archive_write_open_fd.c / _filename.c / _file.c:
+```
+for (;;) { bytesWritten = write(mine->fd, buff, length);
+           if (bytesWritten <= 0) { if (errno == EINTR) continue; … return (-1); }
+           return (bytesWritten); }
+```
+one callback invocation = the system calls up to the first that is not interrupted. -/
+def fileWrite (s : FdSink) (o : List Cell) : Int × FdSink :=
+  match hsc : s.sc with
+  | [] => (o.length, s.log o o.length [])
+  | .accept k :: rest =>
+    let r := Nat.min k o.length
+    if r = 0 then (-1, s.log o 0 rest) else (r, s.log o r rest)
+  | .zero :: rest => (-1, s.log o 0 rest)
+  | .error :: rest => (-1, s.log o (-1) rest)
+  | .eintr :: rest => fileWrite (s.log o (-2) rest) o
+termination_by s.sc.length
+decreasing_by simp [FdSink.log, hsc]
+
 inductive DW
   | script (sc : List Ans)
   | mem (m : LA.MemSink.Mem)
+  | fd (s : FdSink)
   deriving Repr
 
 def driverWriter : Writer DW where
@@ -397,5 +449,6 @@ def driverWriter : Writer DW where
     match w with
     | .script sc => let r := scriptWriter.call sc o; (r.1, .script r.2)
     | .mem m => let r := LA.MemSink.memoryWrite m o; (r.1, .mem r.2)
+    | .fd s => let r := fileWrite s o; (r.1, .fd r.2)
 
 end LA.WC
